@@ -178,7 +178,14 @@ func TestReplay(t *testing.T) {
 			}
 		}
 		w.mu.Unlock()
-		if e == nil || e.sid == "" || serverID != e.sid {
+		if e == nil {
+			return 204, ""
+		}
+		if e.sess == "okany" { // confirms this user whatever the server id
+			id := hex.EncodeToString(func() []byte { u := rig.OfflineUUID("online:" + username); return u[:] }())
+			return 200, fmt.Sprintf(`{"id":"%s","name":"%s","properties":[]}`, id, username)
+		}
+		if e.sid == "" || serverID != e.sid {
 			return 204, ""
 		}
 		id := hex.EncodeToString(func() []byte { u := rig.OfflineUUID("online:" + username); return u[:] }())
@@ -306,6 +313,12 @@ func TestReplay(t *testing.T) {
 						bad := append([]byte(nil), tk...)
 						bad[rng.Intn(len(bad))] ^= 1 << uint(rng.Intn(8))
 						encTok, _ = rsa.EncryptPKCS1v15(rand.Reader, key, bad)
+					case "empty":
+						encTok, _ = rsa.EncryptPKCS1v15(rand.Reader, key, nil)
+					case "prefix":
+						encTok, _ = rsa.EncryptPKCS1v15(rand.Reader, key, tk[:1+rng.Intn(len(tk)-1)])
+					case "longer":
+						encTok, _ = rsa.EncryptPKCS1v15(rand.Reader, key, append(append([]byte(nil), tk...), byte(rng.Intn(256)), 7))
 					default:
 						encTok = make([]byte, 128)
 						rng.Read(encTok)
